@@ -263,4 +263,37 @@ theorem contract_covered (q : Rat) (hq : q ≠ 0) (m : List Posting) (L' : WM.Ma
     ∃ mask : List Wish, denOf (dropMasked q mask m) = L' :=
   keeps_is_wishes q hq m L' hasc hasc' hk
 
+private def segA : Seg := ⟨0, true, [.mk' 0 1 true]⟩
+private def segB : Seg := ⟨1, true, [.mk' 0 1 true, .mk' 1 1 true]⟩
+
+local macro "top_loop" : tactic => `(tactic| (rw [matchesLoop]; simp +decide [replacePhase, replaceThreshold, skipPhase,
+  dropMasked, skipDrop, useBlockQuality, Step.none, nextFlag, topConsume, toHit, TopState.collect, heapPush, heapLe]))
+
+/-- **C05.segment_order_matters** — the hypothesis of `topk` that documents arrive in ascending global
+    document order (`Collector.run` visits the leaf searchers in index order) cannot be dropped: segment A
+    (offset 0) holds document 0, segment B (offset 1) documents 1 and 2, all scoring 1, `limit = 1`. In index
+    order the search returns document 0, the first of the exhaustive ranking. Visiting the bigger segment B
+    first — the same hits, so the same exhaustive ranking — the heap is full with document 1 when document 0
+    arrives, `score > items[0][0]` refuses the tie, and the search returns document 1: the "ascending document
+    number on ties" half of the property is lost although the heap keys carry global document numbers. -/
+theorem segment_order_matters :
+    collectTop { limit := 1 } (fun _ s => s) [segA, segB] [] = .ok [⟨0, 1⟩] ∧
+    topK 1 (allHits { limit := 1 } (fun _ s => s) [segA, segB]) = [⟨0, 1⟩] ∧
+    (allHits { limit := 1 } (fun _ s => s) [segB, segA]).Perm (allHits { limit := 1 } (fun _ s => s) [segA, segB]) ∧
+    topK 1 (allHits { limit := 1 } (fun _ s => s) [segB, segA]) = [⟨0, 1⟩] ∧
+    collectTop { limit := 1 } (fun _ s => s) [segB, segA] [] = .ok [⟨1, 1⟩] ∧
+    ¬ (globalDocs [segB, segA]).Pairwise (· < ·) := by
+  have ht : topK 1 (allHits { limit := 1 } (fun _ s => s) [segA, segB]) = [⟨0, 1⟩] :=
+    topK_of_split 1 _ [⟨0, 1⟩] [⟨1, 1⟩, ⟨2, 1⟩] (by decide) (by decide) (by decide) (by decide)
+  have ht' : topK 1 (allHits { limit := 1 } (fun _ s => s) [segB, segA]) = [⟨0, 1⟩] :=
+    topK_of_split 1 _ [⟨0, 1⟩] [⟨1, 1⟩, ⟨2, 1⟩] (by decide) (by decide) (by decide) (by decide)
+  refine ⟨?_, ht, by decide, ht', ?_, by decide⟩
+  · rw [topk _ _ _ _ (by decide) (by decide) (by decide), ht]
+  · simp only [collectTop, runSegs, segA, segB]
+    top_loop
+    top_loop
+    top_loop
+    top_loop
+    top_loop
+
 end WM.C05
